@@ -331,8 +331,9 @@ class Engine:
             t, consts, rng, body = q
             if len(consts) == 1 and consts[0].sort() == z3.IntSort():
                 alts = []
-                for w in range(4):
-                    sub = (consts[0], z3.IntVal(w))
+                for w in [z3.IntVal(n) for n in range(3)] + list(getattr(self, '_exists_cands',
+                                                                        [])):
+                    sub = (consts[0], w)
                     alts.append(z3.And(*([z3.substitute(r, sub) for r in rng] +
                                          [z3.substitute(body, sub)])))
                 return z3.Or(*alts + [g])
@@ -495,6 +496,14 @@ class Engine:
         # the skolem constants and at the ground index terms of the path (no reliance on
         # E-matching over seq.nth, which neither back end does)
         sk = []
+        self._exists_cands = []
+        seen0 = set()
+        for t in prem:
+            for ix in self.nth_indices(t):
+                if ix.sort() == z3.IntSort() and ix.get_id() not in seen0 and \
+                        len(self._exists_cands) < 8:
+                    seen0.add(ix.get_id())
+                    self._exists_cands.append(ix)
         goal = self.skolemize(goal, sk)
         # library-axiom instances: only those that speak about this path's symbols
         have = set()
